@@ -22,6 +22,14 @@ REVIEWED = {
         "render_loading_keyframe()? succeeded, so a frame exists: frame(loaded_frames()) is the one still loading, and the or_else "
         "fallback frame(loaded_frames() - 1) the last complete one",
     ("JxlImage::reconstruct_jpeg", "jxl_oxide::JxlImage::frame"): "jbrd availability was checked; frame 0 exists once the status says Available",
+    # jxl_render::RenderContext - the context API that jxl_oxide forwards to
+    ("RenderContext::load_frame_header", "field:loading_frame"): "assigned Some(..) on the line before",
+    ("RenderContext::render_loading_keyframe", "jxl_render::RenderContext::loading_frame"):
+        "only on the branch where render_loading_frame() produced a grid, which is entered under `loading_frame().is_some()`",
+    ("RenderContext::render_loading_frame", "jxl_render::RenderContext::loading_frame"):
+        "private; its only caller tests `loading_frame().is_some()` first, and nothing in between takes the frame",
+    ("RenderContext::postprocess_keyframe::{closure#0}", "*"):
+        "the cached transform was stored by cache_color_transform() just before; planes were converted to float by convert_modular_color",
 }
 
 
@@ -59,12 +67,13 @@ def source_of(f, defs, l):
 
 def run(ctx):
     rid = "R-API-UNWRAP"
-    ctx.rule(rid, "every Option::unwrap / expect in the API crate jxl_oxide is in the reviewed table, keyed by (function, where the Option "
+    ctx.rule(rid, "every Option::unwrap / expect in the API crate jxl_oxide and in jxl_render::RenderContext (the context API it forwards to) is in the reviewed table, keyed by (function, where the Option "
                   "comes from: the producing callee or field, followed back through copies, `?` and the Option adaptors); a new pair is "
                   "an unreviewed claim that a lookup cannot fail - on untrusted or partially loaded input it is a reachable panic")
     ox = ctx.prog.crate("jxl_oxide")
+    rc = [f for f in ctx.prog.crate("jxl_render").fn_list if f.path.startswith("jxl_render::RenderContext")]
     n = 0
-    for f in ox.fn_list:
+    for f in list(ox.fn_list) + rc:
         if f.kind == "Promoted":
             continue
         defs = None
@@ -92,4 +101,4 @@ def run(ctx):
                 ctx.bad(rid, key, "Option::%s on a value produced by `%s`: not in the reviewed table - nothing establishes that it cannot be None "
                         "for every input and every moment of a partial load" % (nm.split("::")[-1], src), fn=f, pos=t[-2])
     ctx.count(rid + ".unwraps", n)
-    ctx.floor(rid + ".unwraps", 3)
+    ctx.floor(rid + ".unwraps", 8)
